@@ -46,6 +46,8 @@ def main():
         return 0
     finally:
         shutil.rmtree(tmp, ignore_errors=True)
+        # regenerated facts were computed from the MUTATED tree: restore the committed ones
+        subprocess.run(["git", "-C", V, "checkout", "--", "lean/NbioVerif/Generated"], stdout=subprocess.DEVNULL, stderr=subprocess.DEVNULL)
 
 
 if __name__ == "__main__":
